@@ -286,6 +286,42 @@ def digest(obj, depth=0):
     return type(obj).__name__
 
 
+_GLOBAL_CONTAINERS = None
+
+
+def global_state_digest():
+    """digest of every module-level container and mutable default argument in panoptica.* (found once, re-read on each call):
+    shared in-memory state outside the driven objects is part of the explored state as well"""
+    global _GLOBAL_CONTAINERS
+    import sys
+    import types
+
+    if _GLOBAL_CONTAINERS is None:
+        found = []
+        for name, mod in sorted(sys.modules.items()):
+            if not name.startswith("panoptica") or mod is None:
+                continue
+            for attr, val in sorted(vars(mod).items()):
+                if attr.startswith("__"):
+                    continue
+                if isinstance(val, (list, dict, set)):
+                    found.append(val)
+                fns = []
+                if isinstance(val, types.FunctionType) and val.__module__ == name:
+                    fns.append(val)
+                elif isinstance(val, type) and val.__module__ == name:
+                    for v2 in vars(val).values():
+                        f = v2.__func__ if isinstance(v2, (classmethod, staticmethod)) else v2
+                        if isinstance(f, types.FunctionType):
+                            fns.append(f)
+                for f in fns:
+                    for d in list(f.__defaults__ or ()) + list((f.__kwdefaults__ or {}).values()):
+                        if isinstance(d, (list, dict, set)):
+                            found.append(d)
+        _GLOBAL_CONTAINERS = found
+    return hash(tuple(digest(c, 2) for c in _GLOBAL_CONTAINERS))
+
+
 def explore_states(make, judge_terminal, max_states=200000):
     """Explicit-state BFS with stateless replay and state caching.
     make() -> (bodies, locks, context): builds a fresh initial configuration (fresh file system content, fresh locks);
